@@ -1,4 +1,5 @@
 INIT TInit
 NEXT TNext
 CONSTANT Cases <- TraceCases
+CONSTANT Dev = {}
 CHECK_DEADLOCK FALSE
